@@ -287,6 +287,9 @@ func c19Unit(c *RunCtx, unit int) {
 		}
 		uidBefore := w.Sess.Of(b)["uid"]
 		existed := w.Store.Peek(ePid) != nil
+		if r.Intn(8) == 0 { // a backend call of this registration fails once
+			w.FaultOps = map[string]error{pickS(r, "Save", "Create", "hash", "render", "Load"): errGeneric}
+		}
 		rec := w.Do(b, world.Req{Method: "POST", Path: w.P("/register"), Pairs: pairs})
 		c.Stats.Evaluations++
 		uidAfter := w.Sess.Of(b)["uid"]
@@ -314,6 +317,19 @@ func c19Unit(c *RunCtx, unit int) {
 		if rec.Panic != "" {
 			fail("panic", "registration panicked: %s", trunc(rec.Panic, 120))
 			return
+		}
+		if rec.FaultsFired > 0 {
+			// a backend failed: the only clauses that still apply are the negative ones
+			c.Stats.Count("register:with-backend-fault")
+			if withConfirm && uidAfter != uidBefore {
+				fail("logged-in-despite-confirmation|during-backend-fault", "registration with e-mail confirmation in force logged %q in while a backend call failed (%v)", uidAfter, rec.Calls)
+				return
+			}
+			if cls != "valid-new" && uidAfter != uidBefore {
+				fail("rejectable-registration-changed-session|"+cls+"|during-backend-fault", "a registration that must be refused (%s) changed the session user", cls)
+				return
+			}
+			continue
 		}
 		if cls != "valid-new" {
 			if len(diff) != 0 {
